@@ -43,7 +43,7 @@ def run(ctx):
                 # every third rotation on a freshly loaded machine model (as a new command-line run has it): anything a model
                 # object remembers from the unrotated analysis must not be what makes the rotations agree
                 mm2 = im.mm
-                if ctx.counts.get("rotations", 0) % 3 == 0 and im.arch != "synisa":
+                if (ctx.counts.get("rotations", 0) % 3 == 0 or src.get("kind") == "wbmix") and im.arch != "synisa":
                     from osaca.semantics import MachineModel
 
                     MachineModel._runtime_cache.clear()
